@@ -6,8 +6,10 @@
    (1) Query semantics as pure operators over a set of visible datapoints:
          Select(matchers)      label matchers =, !=, =~, !~ (a missing label is the
                                empty string, as in PromQL); the regular expressions are
-                               restricted to literal / alternation / prefix.* / .*suffix /
-                               .* / .+ so that TLA+ can evaluate them (always fully anchored)
+                               the forms TLA+ can evaluate: literal / alternation / prefix.* /
+                               .*suffix / .* / .+ / explicit anchors / escape classes \\d \\w /
+                               escaped dot / counted repetition / character class / empty
+                               pattern (always fully anchored, RE2 reference semantics)
          Agg(op, by/without)   sum, min, max, avg, count per output group
          BinVec / BinScalar    arithmetic between two instant vectors (default matching on
                                the whole label set, on(..), ignoring(..), group_left) and
@@ -79,6 +81,22 @@ ROp(op, a, b) == CASE op = "+" -> RAdd(a, b) [] op = "-" -> RSub(a, b)
 Lookup(s, k) == IF k \in DOMAIN s.labels THEN s.labels[k] ELSE ""
 
 (* pattern = [kind, s, alts]; always anchored on both sides *)
+(* further regular-expression forms (reference semantics: RE2, anchored on both sides as PromQL does):
+     "anchor"  ^s$ / ^s / s$      explicit anchors inside the (already anchored) pattern: still exactly s; s = "" gives ^$
+     "esc"     s\d, s\d\d, \w\w    escape classes: s followed by one character of every listed class (alts = <<"d","w",...>>)
+     "escdot"  a\.b                an escaped dot: the literal a.b, and not axb
+     "rep"     sc{n} / sc{n,m}     counted repetition of the character c (alts = <<c, n, m>>)
+     "class"   s[c1c2]             a character class (alts = the characters)
+     "empty"   the empty pattern   matches only the empty value (= label absent) *)
+Digits == {"0", "1", "2", "3", "4", "5", "6", "7", "8", "9"}
+WordChars == Digits \cup {"a", "b", "e", "h", "n", "p", "q", "s", "w", "x", "y", "_"}
+ClassChars(c) == IF c = "d" THEN Digits ELSE WordChars
+RECURSIVE EscStrings(_, _)
+EscStrings(s, classes) == IF classes = <<>> THEN {s}
+                          ELSE UNION {EscStrings(s \o c, Tail(classes)) : c \in ClassChars(Head(classes))}
+ToN(str) == CASE str = "0" -> 0 [] str = "1" -> 1 [] str = "2" -> 2 [] str = "3" -> 3
+RECURSIVE RepStr(_, _)
+RepStr(c, k) == IF k = 0 THEN "" ELSE c \o RepStr(c, k - 1)
 PatMatch(p, v) ==
   CASE p.kind = "lit"    -> v = p.s
     [] p.kind = "alt"    -> v \in Range(p.alts)
@@ -86,10 +104,17 @@ PatMatch(p, v) ==
     [] p.kind = "suffix" -> \E r \in Tails : r \o p.s = v       \* .*s
     [] p.kind = "any"    -> TRUE                                \* .*
     [] p.kind = "some"   -> v # ""                              \* .+
+    [] p.kind = "anchor" -> v = p.s
+    [] p.kind = "esc"    -> v \in EscStrings(p.s, p.alts)
+    [] p.kind = "escdot" -> v = p.alts[1] \o "." \o p.alts[2]
+    [] p.kind = "rep"    -> \E k \in ToN(p.alts[2]) .. ToN(p.alts[3]) : v = p.s \o RepStr(p.alts[1], k)
+    [] p.kind = "class"  -> \E c \in Range(p.alts) : p.s \o c = v
+    [] p.kind = "empty"  -> v = ""
 RECURSIVE JoinStr(_, _)
 JoinStr(sq, sep) == IF Len(sq) = 0 THEN ""
                     ELSE IF Len(sq) = 1 THEN sq[1]
                     ELSE sq[1] \o sep \o JoinStr(Tail(sq), sep)
+\* (a backslash is written twice: the pattern sits in a double-quoted PromQL string)
 PatText(p) ==
   CASE p.kind = "lit"    -> p.s
     [] p.kind = "alt"    -> JoinStr(p.alts, "|")
@@ -97,6 +122,12 @@ PatText(p) ==
     [] p.kind = "suffix" -> ".*" \o p.s
     [] p.kind = "any"    -> ".*"
     [] p.kind = "some"   -> ".+"
+    [] p.kind = "anchor" -> (IF p.alts[1] \in {"^$", "^"} THEN "^" ELSE "") \o p.s \o (IF p.alts[1] \in {"^$", "$"} THEN "$" ELSE "")
+    [] p.kind = "esc"    -> p.s \o JoinStr([k \in DOMAIN p.alts |-> "\\\\" \o p.alts[k]], "")
+    [] p.kind = "escdot" -> p.alts[1] \o "\\\\." \o p.alts[2]
+    [] p.kind = "rep"    -> p.s \o p.alts[1] \o "{" \o p.alts[2] \o (IF p.alts[2] = p.alts[3] THEN "" ELSE "," \o p.alts[3]) \o "}"
+    [] p.kind = "class"  -> p.s \o "[" \o JoinStr(p.alts, "") \o "]"
+    [] p.kind = "empty"  -> ""
 
 (* matcher = [key, op, pat]; = and != carry a "lit" pattern *)
 MatcherOK(s, m) ==
